@@ -97,6 +97,12 @@ class Ctx:
              "coverage": {k: list(v) for k, v in sorted(res.coverage.items())}})
 
     # --- verdicts ---------------------------------------------------------------
+    def note(self, msg: str):
+        """A non-verdict remark (e.g. MODEL-DRIFT): printed once and stored in the evidence."""
+        if msg not in self.notes and len(self.notes) < 40:
+            self.notes.append(msg)
+            print(msg)
+
     def violation(self, key: str, what: str, replay: dict | None = None):
         """Report a confirmed violation observed on the real code.  `key` names the
         call site / input class; known findings are matched on it exactly."""
